@@ -332,7 +332,7 @@ fn report_crowd_findings(ctx: &mut Ctx, id: &str) {
         let lines: Vec<String> = f.lines.iter().map(|l| String::from_utf8_lossy(l).into_owned()).collect();
         let key = format!("{:06X} {}", f.addr, lines.last().cloned().unwrap_or_default());
         ctx.violation(
-            &format!("{id}/crowded-table/{label}"),
+            &format!("{id}/{}/{label}", if f.n == 0 { "no-final-line-feed" } else { "crowded-table" }),
             &key,
             || format!("lines {lines:?} of {:06X}: {}", f.addr, f.what),
             || serde_json::json!({"kind": "crowd", "addr": f.addr, "lines": lines, "n": f.n, "cfg": f.opts}),
@@ -348,7 +348,7 @@ fn replay_crowd(ctx: &mut Ctx, id: &str, case: &Value) {
     let n = case.get("n").and_then(|x| x.as_u64()).unwrap_or(1100) as usize;
     let lines: Vec<Vec<u8>> = case.get("lines").and_then(|s| s.as_array()).map(|a| a.iter().filter_map(|x| x.as_str().map(|s| s.as_bytes().to_vec())).collect()).unwrap_or_default();
     let d = engine::sweep::crowd_difference(&cfg, addr, &lines, n);
-    run::say(&format!("{} line(s) of {addr:06X}, cfg [{}], alone and behind {n} other aircraft: {}", lines.len(), cfg.label(), d.clone().unwrap_or_else(|| "same row".into())));
+    run::say(&format!("{} line(s) of {addr:06X}, cfg [{}], {}: {}", lines.len(), cfg.label(), if n == 0 { "with and without a final line feed".to_string() } else { format!("alone and behind {n} other aircraft") }, d.clone().unwrap_or_else(|| "same row".into())));
     if let Some(what) = d {
         ctx.violation(&format!("{id}/crowded-table"), &format!("{addr:06X}"), || what, || case.clone());
     }
